@@ -19,7 +19,7 @@ def main(argv=None):
     ap.add_argument("--tier", default=os.environ.get("VERIF_TIER", "quick"), choices=["quick", "thorough"])
     ap.add_argument("--replay", default=None)
     ap.add_argument("--only", default=None, help="substring filter on obligation names (debugging; evidence marks it)")
-    ap.add_argument("--jobs", type=int, default=int(os.environ.get("VERIF_JOBS", "10")))
+    ap.add_argument("--jobs", type=int, default=int(os.environ.get("VERIF_JOBS", "12")))
     args = ap.parse_args(argv)
     seed = int(os.environ.get("VERIF_SEED", "0") or 0)
     prop = args.prop.upper()
